@@ -93,6 +93,18 @@ func (e *Enc) Get(s *State, comp string) Term {
 				e.sc.Assert(fmt.Sprintf("(forall ((r Int)) (=> (select %s r) (select %s r)))", p, t))
 			}
 			e.initComp(comp, t)
+			// ghost call logs are append-only
+			if strings.HasPrefix(comp, "$") && e.isLogComp(comp) {
+				p := e.Get(s.prev, comp)
+				if strings.HasSuffix(comp, ".n") {
+					e.sc.Assert("(>= " + t + " " + p + ")")
+				} else {
+					nC := comp[:strings.LastIndex(comp, ".")] + ".n"
+					e.comps.Register(nC, "Int")
+					pn := e.Get(s.prev, nC)
+					e.sc.Assert(fmt.Sprintf("(forall ((k Int)) (=> (< k %s) (= (select %s k) (select %s k))))", pn, t, p))
+				}
+			}
 			// objects allocated by the function under verification that have not been handed out yet
 			// (still private) cannot be changed by the callee
 			if s.priv != "" && strings.HasPrefix(sort, "(Array Int") && comp != "$alloc" && !strings.HasPrefix(comp, "$") {
@@ -130,6 +142,13 @@ func (e *Enc) Get(s *State, comp string) Term {
 
 // initComp adds well-formedness facts every version of a component satisfies.
 func (e *Enc) initComp(comp string, t Term) {
+	if strings.HasPrefix(comp, "G:") {
+		if ord, ok := e.w.sentinelOrd(strings.TrimPrefix(comp, "G:")); ok && e.comps.sorts[comp] == "Iface" {
+			// errors.New sentinels: distinct, non-nil, of the (unexported) type *errors.errorString
+			e.sc.Assert(fmt.Sprintf("(= %s (mk_iface %d (- %d)))", t, e.sorts.TypeIDNamed("*errors.errorString"), 1000000+ord))
+			e.trusted["errors.New sentinels are distinct non-nil values (initialised once in the package initialiser)"] = true
+		}
+	}
 	if comp == "$priv" && strings.Contains(t, "@0") || comp == "$priv" && strings.Contains(t, "@ax") {
 		e.sc.Assert("(= " + t + " ((as const (Array Int Bool)) false))")
 	}
@@ -235,4 +254,13 @@ func (e *Enc) touchedComps(s *State, base *State, seen map[*State]bool, out map[
 			e.touchedComps(p, base, seen, out)
 		}
 	}
+}
+
+func (e *Enc) isLogComp(comp string) bool {
+	name := strings.TrimPrefix(comp, "$")
+	i := strings.LastIndex(name, ".")
+	if i < 0 {
+		return false
+	}
+	return e.w.isLogName(name[:i])
 }
